@@ -1,4 +1,5 @@
 (** C15 proofs, part 3: the two routes agree. *)
+From Coq Require Import Sorting.Permutation.
 From V Require Import Base.Util Gql.Ast C15.Model C15.Spec C15.Proofs1 C15.Proofs2.
 
 (* ------------------------------------------------------------------------------------------ *)
@@ -241,24 +242,27 @@ Proof. destruct o; reflexivity. Qed.
 Lemma default_root_plain op : plain_name (default_root_name op) = true.
 Proof. destruct op; reflexivity. Qed.
 
-Theorem routes_agree st meta M D :
+(** general form: the introspection result may list the types in any order, with any extra entries, as long as every
+    compared name is listed with M's definition (or as the built-in scalar it is) *)
+Theorem routes_agree_listing st types M D :
   model_ok M = true ->
+  (forall n, vis_of M n = true -> find_mtype n types = find_mtype n (m_types M ++ builtin_scalar_types)) ->
   doc_equiv D (sdl_doc M) ->
   parsed_positions D ->
-  exists Sj, json_route (introspect st meta M) = Ok Sj /\ schema_equiv_on (vis_of M) Sj (ast_to_type_system D).
+  exists Sj, json_route (introspect_of st types M) = Ok Sj /\ schema_equiv_on (vis_of M) Sj (ast_to_type_system D).
 Proof.
-  intros Hok [Hsd [Hty Hdir]] Hpos.
+  intros Hok Hfind [Hsd [Hty Hdir]] Hpos.
   unfold model_ok in Hok.
   apply Bool.andb_true_iff in Hok as [Hok Hdesc]. apply Bool.andb_true_iff in Hok as [Hok Hroots].
   apply Bool.andb_true_iff in Hok as [Hok Himpl]. apply Bool.andb_true_iff in Hok as [Hnd_dirs Hshadow].
   unfold dirs_ok in Hnd_dirs.
-  exists (json_schema (listed_types meta M) M). split; [apply json_route_introspect_of|].
-  set (Sj := json_schema (listed_types meta M) M). set (Ss := ast_to_type_system D).
+  exists (json_schema types M). split; [apply json_route_introspect_of|].
+  set (Sj := json_schema types M). set (Ss := ast_to_type_system D).
   (* types, per compared name *)
   assert (Htypes : forall n, vis_of M n = true ->
             option_map norm_typedef (get_type Sj n) = option_map norm_typedef (get_type Ss n)).
   { intros n Hv. unfold Ss. rewrite (get_type_doc_equiv D (sdl_doc M) n (Hty n)).
-    unfold Sj. rewrite get_type_json, get_type_ast, find_typedef_sdl_doc, (find_listed meta M n Hv).
+    unfold Sj. rewrite get_type_json, get_type_ast, find_typedef_sdl_doc, (Hfind n Hv).
     destruct (find_mtype n (m_types M ++ builtin_scalar_types)) as [t|]; cbn [option_map]; [|reflexivity].
     now rewrite norm_typedef_of. }
   assert (Hsome : forall n, plain_name n = true -> is_some (get_type Sj n) = is_some (get_type Ss n)).
@@ -293,7 +297,7 @@ Proof.
         now rewrite (Hsome n Hp).
       * (* not declared: the default name is not a type of M *)
         assert (Hnone : get_type Sj (default_root_name op) = None).
-        { unfold Sj. rewrite get_type_json, (find_listed meta M _ (vis_plain M _ (default_root_plain op))), find_mtype_app, find_mtype_builtin.
+        { unfold Sj. rewrite get_type_json, (Hfind _ (vis_plain M _ (default_root_plain op))), find_mtype_app, find_mtype_builtin.
           unfold no_shadow_root in Hshadow. rewrite Hex in Hshadow. cbn [negb orb] in Hshadow.
           apply Bool.andb_true_iff in Hshadow as [Hsm Hss].
           destruct op; cbn [model_root_names] in Hm; [discriminate| |].
@@ -322,4 +326,52 @@ Proof.
     unfold Sj. rewrite get_directive_json, get_directive_ast, find_dirdef_sdl_doc, (find_dirs_agree M n Hnd_dirs).
     destruct (find_mdir n (m_dirs M ++ builtin_dirs)) as [d|]; cbn [option_map]; [|reflexivity].
     now rewrite norm_dirdef_of.
+Qed.
+
+Theorem routes_agree st meta M D :
+  model_ok M = true ->
+  doc_equiv D (sdl_doc M) ->
+  parsed_positions D ->
+  exists Sj, json_route (introspect st meta M) = Ok Sj /\ schema_equiv_on (vis_of M) Sj (ast_to_type_system D).
+Proof.
+  intros Hok He Hp. unfold introspect. apply routes_agree_listing; try assumption. intros n Hv. now apply find_listed.
+Qed.
+
+(** in particular the order in which the result lists the types is immaterial (distinct names) *)
+Lemma find_mtype_perm n l1 l2 :
+  Permutation l1 l2 -> nodup_str (map mt_name l1) = true -> find_mtype n l1 = find_mtype n l2.
+Proof.
+  intros Hp. induction Hp as [|x l l' Hp IH|x y l|l l' l'' Hp1 IH1 Hp2 IH2]; intros Hnd.
+  - reflexivity.
+  - cbn [find_mtype]. cbn [map nodup_str] in Hnd. apply Bool.andb_true_iff in Hnd as [_ Hnd]. now rewrite IH.
+  - cbn [find_mtype]. cbn [map nodup_str mem_str existsb] in Hnd. apply Bool.andb_true_iff in Hnd as [Hy _].
+    apply Bool.negb_true_iff, Bool.orb_false_iff in Hy as [Hyx _].
+    destruct (str_eqb n (mt_name x)) eqn:Ex, (str_eqb n (mt_name y)) eqn:Ey; try reflexivity.
+    apply str_eqb_eq in Ex, Ey. rewrite <- Ex, <- Ey, str_eqb_refl in Hyx. discriminate.
+  - rewrite IH1 by assumption. apply IH2.
+    (* distinctness is preserved by permutation *)
+    clear IH1 IH2 Hp2 l''. induction Hp1 as [|x l l' Hp IH|x y l|l l' l'' Hp1 IH1 Hp2 IH2]; cbn [map nodup_str] in *.
+    + reflexivity.
+    + apply Bool.andb_true_iff in Hnd as [Hx Hnd]. rewrite (IH Hnd), Bool.andb_true_r.
+      apply Bool.negb_true_iff. apply Bool.negb_true_iff in Hx.
+      destruct (mem_str (mt_name x) (map mt_name l')) eqn:E; [|reflexivity].
+      apply mem_str_true in E. apply (Permutation_in _ (Permutation_sym (Permutation_map mt_name Hp))) in E.
+      apply mem_str_true in E. congruence.
+    + cbn [mem_str existsb] in *. apply Bool.andb_true_iff in Hnd as [Hy Hnd]. apply Bool.andb_true_iff in Hnd as [Hx Hnd].
+      apply Bool.negb_true_iff, Bool.orb_false_iff in Hy as [Hyx Hy]. rewrite Hnd, Bool.andb_true_r.
+      fold (mem_str (mt_name x) (map mt_name l)) in *. fold (mem_str (mt_name y) (map mt_name l)) in *.
+      rewrite str_eqb_sym, Hyx. cbn [orb]. rewrite Hx. cbn [andb]. now rewrite Hy.
+    + auto.
+Qed.
+
+Theorem routes_agree_any_order st meta M D types :
+  model_ok M = true ->
+  Permutation types (listed_types meta M) ->
+  nodup_str (map mt_name types) = true ->
+  doc_equiv D (sdl_doc M) ->
+  parsed_positions D ->
+  exists Sj, json_route (introspect_of st types M) = Ok Sj /\ schema_equiv_on (vis_of M) Sj (ast_to_type_system D).
+Proof.
+  intros Hok Hperm Hnd He Hp. apply routes_agree_listing; try assumption.
+  intros n Hv. rewrite (find_mtype_perm n _ _ Hperm Hnd). now apply find_listed.
 Qed.
